@@ -74,6 +74,10 @@ def run(ctx):
             continue
         ctx.violation(core.Violation("C16", s.name, "store site in a task body is not provably confined to the task's own block / locals: %s (%s)" % (s.text, s.why),
                                      input=None, cls={"site": s.name}, solver={"site": s.text, "why": s.why}, no_input=True))
+    from ..frames import poolmon
+
+    if not poolmon.probe():
+        raise core.CheckerBroken("ThreadPool.map(chunksize=0) no longer behaves as the substituted pool assumes")
     ts_obls, ts_stale = task_set_static()
     for name, why in ts_stale:
         ctx.notes.append("proof_stale: %s (%s) - decided by clause O5 of the frame monitor" % (name, why))
@@ -83,7 +87,14 @@ def run(ctx):
             o5 = [f for f in mon.failures if "O5" in f.obligation or "pooled-equals-serial" in f.obligation]
             ctx.violation(core.Violation("C16", name, "the pooled branch does not hand the pool the serial branch's tasks: %s" % text, input=o5[0].input if o5 else None,
                                          cls={"site": name}, solver={"site": text}, no_input=not o5))
-    runner.report(ctx, mon, totals, lambda ob: True, RULE, expect_clauses=EXPECT)
+    expect = list(EXPECT)
+    nstale = sum(n for ob, n in mon.evals.items() if ob.endswith("/frame-monitor-stale"))
+    if nstale:
+        ctx.notes.append("proof_stale: the frame monitor found no shared regions reachable from the task function in %d pooled evaluations "
+                         "(O1-O4 not judged there); O5 and pooled == serial still are" % nstale)
+        if not any("task-frame-O1" in ob and n for ob, n in mon.evals.items()):
+            expect = [e for e in expect if e not in ("task-frame-O1", "task-frame-O2", "task-frame-O3", "task-frame-O4")]
+    runner.report(ctx, mon, totals, lambda ob: True, RULE, expect_clauses=expect)
     ctx.coverage["static_task_set"] = {"obligations": len(ts_obls), "discharged": sum(1 for o in ts_obls if o[1]), "sites": [o[2] for o in ts_obls], "proof_stale": ts_stale}
     ctx.coverage["explanation"] = (
         "Schedule independence is derived, not explored: (1) per task, the substituted pool runs the real fill_one_cube closure from base, "
